@@ -12,28 +12,62 @@ fn data_for(k: u16) -> Vec<u8> {
     data_lcg(k as u64, k as usize)
 }
 
-fn request(k: u16) -> Result<SourceBlockEncoder, String> {
-    guarded(|| SourceBlockEncoder::new(0, &block_cfg(k as u32, 1), &data_for(k))).map_err(|e| format!("SourceBlockEncoder::new(K={}) panicked: {}", k, e))
+/// One request through the shared cache. The call runs in a (persistent) helper thread: a request that does
+/// not return (a lost wake-up, an eviction loop that never ends) is a violation of its own, not a hang of the check.
+type Job = (u16, std::sync::mpsc::Sender<Result<SourceBlockEncoder, String>>);
+thread_local! {
+    static WORKER: std::cell::RefCell<Option<std::sync::mpsc::Sender<Job>>> = const { std::cell::RefCell::new(None) };
 }
 
-#[derive(Clone, PartialEq, Eq, Hash, Debug)]
-struct MState {
-    fifo: Vec<u16>,
-    last_evicted: Option<u16>,
-}
-
-fn model_request(s: &MState, k: u16, cap: usize) -> MState {
-    let mut n = s.clone();
-    if !n.fifo.contains(&k) {
-        if n.fifo.len() >= cap {
-            n.last_evicted = Some(n.fifo.remove(0));
+fn spawn_worker() -> std::sync::mpsc::Sender<Job> {
+    let (tx, rx) = std::sync::mpsc::channel::<Job>();
+    std::thread::spawn(move || {
+        while let Ok((k, reply)) = rx.recv() {
+            let r = guarded(|| SourceBlockEncoder::new(0, &block_cfg(k as u32, 1), &data_for(k)));
+            let _ = reply.send(r);
         }
-        n.fifo.push(k);
-    }
-    n
+    });
+    tx
 }
 
-fn check_snapshot(model: &MState, cap: usize) -> Result<(), String> {
+/// set once a request did not return: the stuck call may hold the cache's lock for ever, so nothing in this
+/// process may touch the cache again
+static STUCK: std::sync::atomic::AtomicBool = std::sync::atomic::AtomicBool::new(false);
+
+fn stuck() -> bool {
+    STUCK.load(std::sync::atomic::Ordering::SeqCst)
+}
+
+fn request(k: u16) -> Result<SourceBlockEncoder, String> {
+    if stuck() {
+        return Err("(skipped: an earlier request never returned)".into());
+    }
+    let (rtx, rrx) = std::sync::mpsc::channel();
+    WORKER.with(|w| {
+        let mut w = w.borrow_mut();
+        if w.is_none() {
+            *w = Some(spawn_worker());
+        }
+        if w.as_ref().unwrap().send((k, rtx.clone())).is_err() {
+            let nw = spawn_worker();
+            let _ = nw.send((k, rtx.clone()));
+            *w = Some(nw);
+        }
+    });
+    let limit = std::time::Duration::from_secs(if k > 20000 { 240 } else { 60 });
+    match rrx.recv_timeout(limit) {
+        Ok(r) => r.map_err(|e| format!("SourceBlockEncoder::new(K={}) panicked: {}", k, e)),
+        Err(_) => {
+            // the worker is stuck inside the library: abandon it, later requests get a new one
+            WORKER.with(|w| *w.borrow_mut() = None);
+            STUCK.store(true, std::sync::atomic::Ordering::SeqCst);
+            Err(format!("SourceBlockEncoder::new(K={}) did not return within {} s (the call normally takes milliseconds): the shared plan cache is stuck", k, limit.as_secs()))
+        }
+    }
+}
+
+/// invariants of the cache contents after a request (what the property's anchor names; no eviction policy assumed)
+fn check_snapshot(cap: usize) -> Result<(Vec<u16>, Vec<(u16, u16)>), String> {
     let (order, plans) = verif_plan_cache_snapshot();
     if plans.len() > cap {
         return Err(format!("cache holds {} plans, capacity {}", plans.len(), cap));
@@ -54,19 +88,7 @@ fn check_snapshot(model: &MState, cap: usize) -> Result<(), String> {
             return Err(format!("plan stored for key {} was generated for {} symbols", k, c));
         }
     }
-    if order != model.fifo {
-        return Err(format!("cache order {:?} differs from the FIFO model {:?}", order, model.fifo));
-    }
-    Ok(())
-}
-
-/// put the real global cache into the model state (clear + requests in FIFO order)
-fn establish(s: &MState, cap: usize) -> Result<(), String> {
-    verif_plan_cache_clear();
-    for &k in &s.fifo {
-        request(k)?;
-    }
-    check_snapshot(s, cap).map_err(|e| format!("establishing state {:?}: {}", s.fifo, e))
+    Ok((order, plans))
 }
 
 struct Refs {
@@ -82,9 +104,12 @@ impl Refs {
     }
 }
 
-/// one transition on the real cache from an established state
-fn step(s: &MState, k: u16, cap: usize, refs: &mut Refs) -> Result<MState, String> {
+/// one request on the real cache: transparency + invariants; returns the cache order afterwards
+fn step(k: u16, cap: usize, refs: &mut Refs) -> Result<Vec<u16>, String> {
     let enc = request(k)?;
+    if stuck() {
+        return Err("(skipped)".into());
+    }
     let r = refs.get(k);
     if &enc != r {
         return Err(format!("encoder for K={} obtained through the cache differs from the one built from a fresh plan", k));
@@ -92,75 +117,130 @@ fn step(s: &MState, k: u16, cap: usize, refs: &mut Refs) -> Result<MState, Strin
     if enc.repair_packets(0, 3) != r.repair_packets(0, 3) || enc.source_packets() != r.source_packets() {
         return Err(format!("packets for K={} differ", k));
     }
-    let n = model_request(s, k, cap);
-    check_snapshot(&n, cap)?;
-    Ok(n)
+    Ok(check_snapshot(cap)?.0)
 }
 
-fn alphabet(s: &MState) -> Vec<(&'static str, u16)> {
+/// replay a whole history on a cleared cache (deterministic whatever the eviction policy is)
+fn replay_requests(reqs: &[u16], cap: usize, refs: &mut Refs, check_all: bool) -> Result<Vec<u16>, String> {
+    if stuck() {
+        return Err("(skipped: an earlier request never returned)".into());
+    }
+    verif_plan_cache_clear();
+    let mut order = vec![];
+    for (i, &k) in reqs.iter().enumerate() {
+        if check_all || i + 1 == reqs.len() {
+            order = step(k, cap, refs).map_err(|e| format!("request {} of {}: {}", i + 1, reqs.len(), e))?;
+        } else {
+            request(k)?;
+        }
+    }
+    if reqs.is_empty() {
+        order = check_snapshot(cap)?.0;
+    }
+    Ok(order)
+}
+
+/// request menu in a state: sizes chosen relative to the cache contents; small and large (>= 250: the other
+/// matrix back-end, any size-dependent path of the cache) fresh sizes
+fn alphabet(order: &[u16], evicted: Option<u16>) -> Vec<(&'static str, u16)> {
     let mut v = vec![];
-    let mut fresh = (200u16..).filter(|k| !s.fifo.contains(k) && Some(*k) != s.last_evicted);
+    let mut fresh = (200u16..).filter(|k| !order.contains(k) && Some(*k) != evicted);
     v.push(("new1", fresh.next().unwrap()));
     v.push(("new2", fresh.next().unwrap()));
-    if let Some(&k) = s.fifo.first() {
+    let mut fresh_large = (400u16..).filter(|k| !order.contains(k) && Some(*k) != evicted);
+    v.push(("new-large", fresh_large.next().unwrap()));
+    if let Some(&k) = order.first() {
         v.push(("oldest", k));
     }
-    if let Some(&k) = s.fifo.last() {
+    if let Some(&k) = order.last() {
         v.push(("newest", k));
     }
-    if let Some(k) = s.last_evicted {
-        if !s.fifo.contains(&k) {
+    if let Some(k) = evicted {
+        if !order.contains(&k) {
             v.push(("most-recently-evicted", k));
         }
     }
-    if s.fifo.len() > 2 {
-        v.push(("middle", s.fifo[s.fifo.len() / 2]));
+    if order.len() > 2 {
+        v.push(("middle", order[order.len() / 2]));
     }
     v
 }
 
-fn seeds(cap: usize) -> Vec<(&'static str, MState)> {
-    let mk = |n: usize| MState { fifo: (1..=n as u16).collect(), last_evicted: None };
+/// seeds = request prefixes (non-initial starts)
+fn seeds(cap: usize, quick: bool) -> Vec<(&'static str, Vec<u16>, usize)> {
+    let mk = |n: usize| (1..=n as u16).collect::<Vec<u16>>();
+    let depth = if quick { 3 } else { 5 };
     let mut after3 = mk(cap);
-    for k in [150u16, 151, 152] {
-        after3 = model_request(&after3, k, cap);
-    }
-    vec![("empty", mk(0)), ("capacity-2", mk(cap - 2)), ("capacity-1", mk(cap - 1)), ("capacity", mk(cap)), ("capacity after 3 evictions", after3)]
+    after3.extend([150u16, 151, 152]);
+    // every resident plan is large and has been hit once more (all "recently used")
+    let large: Vec<u16> = (250..250 + cap as u16).collect();
+    let mut large_touched = large.clone();
+    large_touched.extend(large.iter().copied());
+    let mut mixed_touched: Vec<u16> = (1..=(cap as u16 / 2)).chain(250..250 + cap as u16 / 2).collect();
+    let again = mixed_touched.clone();
+    mixed_touched.extend(again);
+    vec![
+        ("empty", mk(0), depth + 1),
+        ("capacity-2", mk(cap - 2), depth),
+        ("capacity-1", mk(cap - 1), depth),
+        ("capacity", mk(cap), depth),
+        ("capacity after 3 evictions", after3, depth),
+        ("capacity, all plans large and requested twice", large_touched, 2),
+        ("capacity, small and large plans, all requested twice", mixed_touched, if quick { 2 } else { 3 }),
+    ]
 }
 
 fn histories(ctx: &Ctx, st: &Stats) {
     let cap = verif_plan_cache_capacity();
-    let depth = if ctx.quick() { 4 } else { 6 };
     let mut refs = Refs { map: HashMap::new() };
-    for (sname, seed) in seeds(cap) {
-        let mut seen: HashSet<MState> = HashSet::new();
-        let mut queue: VecDeque<(MState, usize, Vec<u16>)> = VecDeque::new();
-        seen.insert(seed.clone());
-        queue.push_back((seed.clone(), 0, vec![]));
-        let (mut states, mut transitions, mut evictions, mut hits) = (0u64, 0u64, 0u64, 0u64);
-        while let Some((s, d, path)) = queue.pop_front() {
-            states += 1;
-            if d == depth {
+    for (sname, seed, depth) in seeds(cap, ctx.quick()) {
+        if stuck() {
+            break;
+        }
+        // a node is a request history; nodes are merged when the real cache contents (order list) are equal
+        let mut seen: HashSet<(Vec<u16>, Option<u16>)> = HashSet::new();
+        let mut queue: VecDeque<(Vec<u16>, usize, Vec<u16>, Option<u16>)> = VecDeque::new(); // (requests after the seed, depth, order, last evicted)
+        let order0 = match replay_requests(&seed, cap, &mut refs, true) {
+            Ok(o) => o,
+            Err(m) => {
+                st.violation(format!("history:{}:[]", sname), format!("seed '{}' ({} requests): {}", sname, seed.len(), m), json!({"kind":"history","seed":seed,"requests":[]}));
                 continue;
             }
-            for (name, k) in alphabet(&s) {
+        };
+        seen.insert((order0.clone(), None));
+        queue.push_back((vec![], 0, order0, None));
+        let (mut states, mut transitions, mut evictions, mut hits) = (0u64, 0u64, 0u64, 0u64);
+        let mut failed = 0;
+        while let Some((path, d, order, evicted)) = queue.pop_front() {
+            states += 1;
+            if d == depth || failed >= 20 || stuck() {
+                continue;
+            }
+            for (name, k) in alphabet(&order, evicted) {
                 let mut p2 = path.clone();
                 p2.push(k);
                 transitions += 1;
-                let r = establish(&s, cap).and_then(|_| step(&s, k, cap, &mut refs));
-                match r {
+                let mut all = seed.clone();
+                all.extend_from_slice(&p2);
+                if stuck() {
+                    break;
+                }
+                match replay_requests(&all, cap, &mut refs, false) {
                     Err(m) => {
-                        st.violation(format!("history:{}:{:?}", sname, p2), format!("seed '{}' ({} plans), requests {:?} (last = {}): {}", sname, seed.fifo.len(), p2, name, m), json!({"kind":"history","seed":seed.fifo,"requests":p2}));
+                        failed += 1;
+                        st.violation(format!("history:{}:{:?}", sname, p2), format!("seed '{}' ({} requests), then requests {:?} (last = {}): {}", sname, seed.len(), p2, name, m), json!({"kind":"history","seed":seed,"requests":p2}));
                     }
                     Ok(n) => {
-                        if n.fifo.len() == s.fifo.len() && !s.fifo.contains(&k) {
+                        let gone: Vec<u16> = order.iter().copied().filter(|x| !n.contains(x)).collect();
+                        if !gone.is_empty() {
                             evictions += 1;
                         }
-                        if s.fifo.contains(&k) {
+                        if order.contains(&k) {
                             hits += 1;
                         }
-                        if seen.insert(n.clone()) {
-                            queue.push_back((n, d + 1, p2));
+                        let ev = gone.last().copied().or(evicted);
+                        if seen.insert((n.clone(), ev)) {
+                            queue.push_back((p2, d + 1, n, ev));
                         }
                     }
                 }
@@ -175,20 +255,22 @@ fn histories(ctx: &Ctx, st: &Stats) {
         st.count("history_transitions", transitions);
         st.count("history_evictions", evictions);
         st.count("history_cache_hits", hits);
-        st.note(format!("histories from seed '{}': {} distinct cache states, {} transitions (depth {}), {} evictions, {} hits", sname, states, transitions, depth, evictions, hits));
+        st.note(format!("histories from seed '{}': {} distinct cache states, {} transitions (depth {}), {} evictions, {} hits [t={:.1}s]", sname, states, transitions, depth, evictions, hits, ctx.elapsed()));
     }
     // un-deduplicated short sequences on one continuously living cache (no re-establishing in between)
     let keys = [1u16, 2, 300, 301];
     let n = keys.len();
     let len = if ctx.quick() { 4 } else { 6 };
     let mut count = 0u64;
+    let base: Vec<u16> = (1..=(cap as u16 - 1)).collect();
     for code in 0..(n as u64).pow(len as u32) {
-        let base = MState { fifo: (1..=(cap as u16 - 1)).collect(), last_evicted: None };
-        if let Err(m) = establish(&base, cap) {
-            st.violation("history:establish".into(), m, json!({"kind":"history","seed":base.fifo,"requests":[]}));
+        if stuck() {
             break;
         }
-        let mut s = base.clone();
+        if let Err(m) = replay_requests(&base, cap, &mut refs, false) {
+            st.violation("history:establish".into(), m, json!({"kind":"history","seed":base,"requests":[]}));
+            break;
+        }
         let mut c = code;
         let mut reqs = vec![];
         for _ in 0..len {
@@ -196,35 +278,103 @@ fn histories(ctx: &Ctx, st: &Stats) {
             c /= n as u64;
             reqs.push(k);
             count += 1;
-            match step(&s, k, cap, &mut refs) {
-                Ok(ns) => s = ns,
-                Err(m) => {
-                    st.violation(format!("history:live:{:?}", reqs), format!("cache pre-filled with capacity-1 plans, requests {:?}: {}", reqs, m), json!({"kind":"history","seed":base.fifo,"requests":reqs}));
-                    break;
-                }
+            if let Err(m) = step(k, cap, &mut refs) {
+                st.violation(format!("history:live:{:?}", reqs), format!("cache pre-filled with capacity-1 plans, requests {:?}: {}", reqs, m), json!({"kind":"history","seed":base,"requests":reqs}));
+                break;
             }
-        }
-        if code % 4 != 0 {
-            continue;
         }
     }
     st.eval(count);
     st.trace(count);
     st.count("live_history_steps", count);
-    verif_plan_cache_clear();
+    if !stuck() {
+        verif_plan_cache_clear();
+    }
 }
 
 fn replay_history(case: &Value) -> Result<(), String> {
     let cap = verif_plan_cache_capacity();
     let seed: Vec<u16> = case["seed"].as_array().unwrap().iter().map(|x| x.as_u64().unwrap() as u16).collect();
     let reqs: Vec<u16> = case["requests"].as_array().unwrap().iter().map(|x| x.as_u64().unwrap() as u16).collect();
-    let mut s = MState { fifo: seed, last_evicted: None };
     let mut refs = Refs { map: HashMap::new() };
-    establish(&s, cap)?;
-    for k in reqs {
-        s = step(&s, k, cap, &mut refs)?;
+    let mut all = seed;
+    all.extend(reqs);
+    replay_requests(&all, cap, &mut refs, true).map(|_| ())
+}
+
+// ---------------------------------------------------------------- confusable size pairs
+/// ordered pairs of block sizes that a cache keyed or matched by anything coarser than the exact symbol count
+/// would confuse: rows of Table 2 sharing their systematic index J, neighbouring rows, and two sizes padded to
+/// the same K'
+fn confusable_pairs(quick: bool) -> Vec<(u16, u16)> {
+    use crate::tables::TABLE2;
+    let lim: u32 = if quick { 2600 } else { 56403 };
+    let jlim: u32 = if quick { 12000 } else { 56403 };
+    let mut v: Vec<(u16, u16)> = vec![];
+    let n = TABLE2.len();
+    for a in 0..n {
+        for b in a + 1..n {
+            if TABLE2[a].1 == TABLE2[b].1 && TABLE2[b].0 <= jlim {
+                v.push((TABLE2[a].0 as u16, TABLE2[b].0 as u16));
+                v.push((TABLE2[b].0 as u16, TABLE2[a].0 as u16));
+            }
+        }
+        if TABLE2[a].0 > lim {
+            continue;
+        }
+        if a + 1 < n {
+            v.push((TABLE2[a].0 as u16, TABLE2[a + 1].0 as u16));
+            v.push((TABLE2[a + 1].0 as u16, TABLE2[a].0 as u16));
+            // the largest size of this row and the smallest of the next
+            v.push((TABLE2[a].0 as u16, TABLE2[a].0 as u16 + 1));
+            v.push((TABLE2[a].0 as u16 + 1, TABLE2[a].0 as u16));
+        }
+        let mink = crate::rfcref::min_k_for_index(a) as u16;
+        let kp = TABLE2[a].0 as u16;
+        if mink < kp {
+            v.push((mink, kp));
+            v.push((kp, mink));
+            if kp - 1 > mink {
+                v.push((kp - 1, kp));
+            }
+        }
     }
+    v.sort_unstable();
+    v.dedup();
+    v
+}
+
+fn pair_case(k1: u16, k2: u16, refs: &mut Refs) -> Result<(), String> {
+    let cap = verif_plan_cache_capacity();
+    if stuck() {
+        return Ok(());
+    }
+    verif_plan_cache_clear();
+    step(k1, cap, refs).map_err(|e| format!("first request: {}", e))?;
+    step(k2, cap, refs).map_err(|e| format!("cache holds the plan for K={}; request for K={}: {}", k1, k2, e))?;
     Ok(())
+}
+
+/// child side: the slice i of n of the pair list (the cache is process-global, so parallelism = processes)
+fn pairs_child(ctx: &Ctx, st: &Stats, i: usize, n: usize) {
+    let pairs = confusable_pairs(ctx.quick());
+    let mut refs = Refs { map: HashMap::new() };
+    for (idx, &(k1, k2)) in pairs.iter().enumerate() {
+        if idx % n != i {
+            continue;
+        }
+        st.eval(1);
+        st.trace(2);
+        st.count("pair_histories", 1);
+        if let Err(m) = pair_case(k1, k2, &mut refs) {
+            st.violation(format!("pair:{}:{}", k1, k2), format!("empty cache, request K={} then K={}: {}", k1, k2, m), json!({"kind":"pair","k1":k1,"k2":k2}));
+        }
+        // keep the reference map small
+        if refs.map.len() > 8 {
+            refs.map.clear();
+        }
+    }
+    st.sample(json!({"kind":"pair","example":[pairs[0].0, pairs[0].1]}));
 }
 
 // ---------------------------------------------------------------- loom
@@ -281,6 +431,10 @@ fn run_loom(model: &str, bound: Option<usize>) -> Result<String, String> {
 pub fn replay(case: &Value) -> Result<(), String> {
     match case["kind"].as_str().unwrap_or("") {
         "history" => replay_history(case),
+        "pair" => {
+            let mut refs = Refs { map: HashMap::new() };
+            pair_case(case["k1"].as_u64().unwrap() as u16, case["k2"].as_u64().unwrap() as u16, &mut refs)
+        }
         "loom" => run_loom(case["model"].as_str().unwrap(), case["bound"].as_u64().map(|b| b as usize)).map(|_| ()),
         k => Err(format!("unknown kind {}", k)),
     }
@@ -288,6 +442,13 @@ pub fn replay(case: &Value) -> Result<(), String> {
 
 pub fn run(ctx: &Ctx) -> i32 {
     let st = Stats::new();
+    if let Some(spec) = ctx.opt("--pairs") {
+        let mut it = spec.split('/');
+        let i: usize = it.next().unwrap().parse().unwrap();
+        let n: usize = it.next().unwrap().parse().unwrap();
+        pairs_child(ctx, &st, i, n);
+        return child_emit(&st);
+    }
     let models = loom_models(ctx.quick());
     // loom children run concurrently with the (single-threaded, global-cache) history exploration
     std::thread::scope(|sc| {
@@ -295,7 +456,15 @@ pub fn run(ctx: &Ctx) -> i32 {
             .iter()
             .map(|&(m, b)| sc.spawn(move || (m, b, run_loom(m, b))))
             .collect();
+        // confusable size pairs: one child process per slice (each has its own process-wide cache)
+        let slices = 8usize;
+        let pair_handles: Vec<_> = (0..slices).map(|i| { let st = &st; sc.spawn(move || run_child_and_merge(ctx, st, "RQ_BIN_RELEASE", "pairs", &["--pairs".to_string(), format!("{}/{}", i, slices)])) }).collect();
         histories(ctx, &st);
+        st.note(format!("histories finished after {:.1} s", ctx.elapsed()));
+        for h in pair_handles {
+            let _ = h.join();
+        }
+        st.note(format!("confusable-pair children finished after {:.1} s", ctx.elapsed()));
         for h in handles {
             let (m, b, r) = h.join().unwrap();
             match r {
@@ -321,10 +490,10 @@ pub fn run(ctx: &Ctx) -> i32 {
     st.sample(json!({"kind":"history","seed":"capacity-1 plans","requests":["new1","new2","oldest","most-recently-evicted"],"oracle":"encoder == encoder from a fresh plan; cache snapshot == FIFO model; |plans| <= 64; order duplicate-free and = keys; plan count == key"}));
     finish(ctx, &st, Finish {
         level: "model_checking",
-        rule: "schedules: loom explores all interleavings (DPOR; unbounded for L1, L3, L4, L6; preemption-bounded for L2, L5, L7-L11 - see notes; L8, L9, L11 use block sizes on the far side of the 250-symbol back-end threshold, L10 has four threads) of real threads calling the real SourceBlockEncoder::new against the real process-wide cache compiled with loom's Mutex/Arc/lazy_static (scheduling points at every lock, Arc clone/drop and the static's initialisation); in every execution every returned encoder must equal the encoder built from a fresh plan, and after each request and at the end |plans| <= capacity, insertion order is a duplicate-free listing of exactly the stored keys, each plan was generated for its key. histories: breadth-first exploration of request sequences (alphabet new1, new2, oldest, newest, middle, most-recently-evicted; 5 seeds around the capacity) on the real global cache against a FIFO model, de-duplicated by the cache snapshot (= the whole state), plus all sequences of a fixed length on one continuously living cache. distinct_nontrivial = distinct cache states + distinct final orders.".into(),
+        rule: "schedules: loom explores all interleavings (DPOR; unbounded for L1, L3, L4, L6; preemption-bounded for L2, L5, L7-L11 - see notes; L8, L9, L11 use block sizes on the far side of the 250-symbol back-end threshold, L10 has four threads) of real threads calling the real SourceBlockEncoder::new against the real process-wide cache compiled with loom's Mutex/Arc/lazy_static (scheduling points at every lock, Arc clone/drop and the static's initialisation); in every execution every returned encoder must equal the encoder built from a fresh plan, and after each request and at the end |plans| <= capacity, insertion order is a duplicate-free listing of exactly the stored keys, each plan was generated for its key. histories: breadth-first exploration of request sequences (alphabet new1, new2, new-large (>= 400 symbols), oldest, newest, middle, most-recently-evicted) from 7 seed prefixes around the capacity (incl. caches whose plans are all large and all requested twice), each node re-established by replaying its whole request history on a cleared real global cache, de-duplicated by the cache snapshot; every request runs under a time limit (a call that does not return is a violation); no eviction policy is assumed: only transparency and the invariants are judged; plus all sequences of a fixed length on one continuously living cache; plus every ordered pair of confusable block sizes (Table 2 rows sharing their systematic index, neighbouring rows, sizes padded to the same K') requested one after the other on an empty cache. distinct_nontrivial = distinct cache states + distinct final orders.".into(),
         exhaustive: false,
         assumptions: vec!["at most 4 threads; std::sync::Mutex itself and weak-memory effects inside it are trusted (loom models the lock as a scheduling point)".into(), "loom failures abort the child: the model name is the replay (deterministic re-exploration)".into()],
         extra: Map::new(),
-        must_be_nonzero: vec!["loom_models", "loom_executions", "loom_executions_with_eviction", "history_states", "history_evictions", "history_cache_hits", "live_history_steps"],
+        must_be_nonzero: vec!["loom_models", "loom_executions", "loom_executions_with_eviction", "history_states", "history_evictions", "history_cache_hits", "live_history_steps", "pairs/pair_histories"],
     }, replay)
 }
